@@ -167,6 +167,10 @@ pub fn parse_type_set(it: &mut LexIterator) -> ParseResult {
     })?;
 
     let end = it.eat(&Token::RCBrack, "type set")?;
+    if types.is_empty() {
+        let msg = "A type union must have at least one type";
+        return Err(Box::from(custom(msg, start.union(end))));
+    }
     let node = Node::TypeUnion { types };
     Ok(Box::from(AST::new(start.union(end), node)))
 }
